@@ -125,6 +125,10 @@ async def run_case_async(conns, comps, ticks, chooser, answer_mode="some", malfo
             except (AssertionError, KeyError):
                 answers.append((c, tt, ch, ("err",)))
                 log.clear()
+                if a is not None and c in pending:
+                    pending.remove(c)      # a legitimate answer was rejected: do not offer it again
+            if len(answers) > 6 * (len(comps) + 4) + 3 * len(malformed[tickno] if malformed else []):
+                break                      # the ticker keeps dispatching: recorded as it is, the tick never finishes
         await _drain()
         if not task.done():
             task.cancel()
